@@ -48,6 +48,20 @@ def labels_identify_rows(data):
     return not idx.hasnans
 
 
+def str_parser_on_non_str_cells(spec, table):
+    """A str parser (``Series.str.*``) of the harness meets a column whose cells
+    are not all strings / nulls."""
+    fields = spec["columns"] if spec["kind"] == "frame" else [spec["field"]]
+    for fs in fields:
+        if fs.get("parser") in ("lower", "strip"):
+            for c in table["columns"]:
+                if (c["name"] == fs["name"] or (fs.get("regex") and M_match(fs["name"], c["name"]))) \
+                        and (c["phys"] != "str" or any(
+                            v is not None and not isinstance(v, str) for v in c["values"])):
+                    return True
+    return False
+
+
 def classify(spec, table, backend, kind, out2, diff=None, res=None):
     reasons = out2.reasons() if out2 is not None else []
     if backend == "pandas" and spec.get("add_missing_columns") and C.has_dup_labels(table) \
@@ -169,6 +183,12 @@ def pandas_case(run, spec, table, opts, muts):
                       classify(spec, table, "pandas", "result-rejected-by-stripped-schema", out2, res=res))
         return
     # (b) validating again returns it unchanged
+    if str_parser_on_non_str_cells(spec, table):
+        # Series.str.lower()/strip() turn non-string cells into nulls: the
+        # harness' parser is then not idempotent together with a default (the
+        # next validation fills the nulls the parser made) -> not judged
+        run.count("undecided:str-parser-on-non-str-cells-makes-nulls")
+        return
     before = S.snap(res)
     out3 = H.run_validate(B.pandas_schema(spec), res, lazy=lazy)
     run.count("b:fixpoint_checked")
